@@ -18,10 +18,11 @@ def main():
     props = [json.loads(l) for l in open(os.path.join(env.VERIF, "properties.jsonl"))]
     checks, na, served = [], [], []
     na_reasons = json.load(open(NOT_APPLICABLE_FILE)) if os.path.exists(NOT_APPLICABLE_FILE) else {}
+    enabled = set(open(os.path.join(env.VERIF, "mc", "enabled.txt")).read().split())
     for p in props:
         pid = p["id"]
         path = os.path.join(env.VERIF, "mc", "checks", pid.lower() + ".py")
-        if not os.path.exists(path) or pid in na_reasons:
+        if not os.path.exists(path) or pid in na_reasons or pid not in enabled:
             na.append(dict(property_id=pid, reason=na_reasons.get(pid, "check not built yet (see DESIGN.md §3 %s for the planned bounded-exhaustive exploration)" % pid)))
             continue
         m = importlib.import_module("mc.checks." + pid.lower()).META
